@@ -104,6 +104,10 @@ def put(g, frag, c):
     if k == "div":
         n = max(3, frag.colon + 1)
         return G.wrap("container", frag, "", "", head=[":" * n + (" cls" if c[1] else "")], tail=[":" * n], colon=n)
+    if k == "class":
+        # a directive whose output is its body's nodes, unwrapped: their lines are the body lines, not the fence line
+        # (always a backtick fence: a colon fence whose body starts with a colon fence has the known +1 of 7.4, which could not be attributed to a container without a node)
+        return g.mk_directive(frag, "class", colon=False, style="none", nblank=c[2], tailblank=c[3], extra=0, ch="`~"[c[1]], kind="class-passthrough")
     style, nblank, tailblank, extra = c[1], c[2], c[3], c[4]
     if len(c) > 5 and c[5] and style == "none" and nblank == 0 and frag.marks and all(not mk["chain"] for mk in frag.marks) and frag.marks[0]["kind"] == "paragraph" and len(frag.lines) > 1:
         # body text starts on the directive's own first line (allowed for directives without arguments)
@@ -114,7 +118,11 @@ def put(g, frag, c):
         for mk in f.marks:
             mk["chain"][0][2]["firstline"] = True
         return f
-    return g.mk_directive(frag, "note" if not style.startswith("dash") else "tip", colon=(k == "colon"), style=style, nblank=nblank, tailblank=tailblank, extra=extra, ch="`")
+    # directives whose own node gets its line from docutils' bookkeeping (container, topic, compound) as well as the admonitions, which set it themselves
+    name = "note" if not style.startswith("dash") else "tip"
+    if style == "none" and (len(frag.lines) + nblank + extra) % 3 == 0:
+        name = ["container", "topic", "compound"][(len(frag.lines) + tailblank) % 3]
+    return g.mk_directive(frag, name, colon=(k == "colon"), style=style, nblank=nblank, tailblank=tailblank, extra=extra, ch="`")
 
 
 def build_struct(case):
@@ -145,8 +153,8 @@ def ancestors(node):
     out = []
     p = node.parent
     while p is not None and not isinstance(p, nodes.document):
-        if isinstance(p, nodes.Admonition):
-            out.append(("admonition", p))
+        if isinstance(p, nodes.Admonition) or (isinstance(p, nodes.container) and "dirc" in p.get("classes", [])) or isinstance(p, (nodes.topic, nodes.compound)):
+            out.append(("admonition", p))  # the node a directive wraps its body in
         elif p.tagname in CONTAINER_TAGS:
             out.append((p.tagname, p))
         p = p.parent
@@ -293,6 +301,8 @@ def eval_case(ctx, case):
     EXTS = ["colon_fence", "deflist", "fieldlist", "dollarmath", "attrs_block", "attrs_inline", "tasklist"]
     try:
         if case.get("front_end") == "sphinx":
+            text = text.replace("{class} cls-x", "{rst-class} cls-x")  # in Sphinx 'class' is the Python domain's directive; docutils' one is registered as rst-class
+            detail["text"] = text
             # the same ground truth through the Sphinx front end: node lines from the read doctree, warning paths and lines from Sphinx' warning stream
             b = drive.SphinxBuild({"index.md": text, **files}, conf={"myst_enable_extensions": EXTS, "exclude_patterns": ["inc*.md"]}, builder="dummy")
             for mk in marks.values():
@@ -410,6 +420,7 @@ def containers(quick):
     for lay in layouts(quick):
         cs.append(["tick"] + lay)
         cs.append(["colon"] + lay)
+    cs += [["class", 0, 0, 0], ["class", 1, 0, 0], ["class", 0, 1, 1], ["class", 1, 2, 0]]
     cs.append(["tick", "none", 0, 0, 0, True])
     cs.append(["colon", "none", 0, 1, 0, True])
     return cs
